@@ -504,6 +504,23 @@ func checkC11(c *Ctx, w *World) {
 				}
 			}
 			if !good {
+				// the same on conditions (the error may have gone through a helper's result variable first): the loop is left
+				// from inside only on ways on which the recursive call of this iteration returned an error
+				for _, sc := range selfCalls {
+					if !l.Blocks[sc.Block()] {
+						continue
+					}
+					xcs := newCondSpace(kfm, recOf(eqAtom("recErrNil", func(v ssa.Value) bool { return isExtractOf(stripConv(v), sc, 1) }, isNil)), "recErrNil")
+					for si, sb := range ex[0].Succs {
+						if sb == ex[1] {
+							if imp, _ := xcs.Implies(xcs.EdgeCond(ex[0], si), xcs.Not(xcs.Atom("recErrNil"))); imp && xcs.Seen("recErrNil") {
+								good = true
+							}
+						}
+					}
+				}
+			}
+			if !good {
 				okExit = false
 			}
 		}
@@ -536,11 +553,20 @@ func checkC11(c *Ctx, w *World) {
 					okEvery = false
 				}
 			}
+			ycs := newCondSpace(kfm, nil)
 			eachInstr(kfm, func(in ssa.Instruction) {
 				if call, ok := in.(*ssa.Call); ok && calleeOf(&call.Call).Builtin == "append" && l.Blocks[call.Block()] && isExtractOf(call.Call.Args[1], sc, 0) {
 					for _, la := range l.Latch {
-						if !call.Block().Dominates(la) {
-							okEvery = false
+						if call.Block().Dominates(la) {
+							continue
+						}
+						// … or, on conditions: every way round the loop has passed the append
+						for si, sb := range la.Succs {
+							if sb == l.Header {
+								if imp, _ := ycs.Implies(ycs.EdgeCond(la, si), ycs.Reach(call)); !imp {
+									okEvery = false
+								}
+							}
 						}
 					}
 				}
